@@ -21,7 +21,7 @@ ASSUMPTIONS = ["covering bands: rectangles 1e-6 rel (LP certificates), ellipsoid
                "Auer: a round is judged only if every first-stage membership is decisive"]
 N = {"quick": 190, "thorough": 6000}
 VARS = ["PaVeBa", "PaVeBaGP-IH", "PaVeBaGP-DE", "PartialGP-rect", "PartialGP-ell", "VOGP", "EpsilonPAL", "Auer", "Auer-emp", "Auer-emp", "VOGP"]
-REQUIRE = {"quick": {"must_admit": 300, "must_hold": 1500, "must_useful": 50, "must_not_useful": 50, "auer_held_back": 5, "runs": 150, "vogp_ad_runs": 10,
+REQUIRE = {"quick": {"must_admit": 300, "must_hold": 1500, "must_useful": 50, "must_not_useful": 50, "auer_held_back": 5, "auer_blocked_only_by_per_objective_sum": 10, "runs": 150, "vogp_ad_runs": 10,
                      **{f"must_admit::{v}": 8 for v in set(VARS)}, **{f"must_hold::{v}": 20 for v in set(VARS)}}}
 TIMEOUT = {"quick": 1500, "thorough": 7200}
 
@@ -38,7 +38,7 @@ def make(rng, variant):
         over["ds_family"] = str(rng.choice(["chain", "tight", "random"]))
     case, order = runs.make_case(rng, variant, **over)
     if variant == "Auer-emp":
-        case["hetero"] = (np.sqrt(case["noise_var"]) * 10 ** rng.uniform(-1, 1, size=case["K"])).tolist()
+        case["hetero"] = (np.sqrt(case["noise_var"]) * 10 ** rng.uniform(-1, 1, size=(case["K"], case["m"]))).tolist()  # per (design, objective)
     case["max_rounds"] = 80
     return case, order
 
@@ -70,9 +70,26 @@ def ad_run(mon, rng):
             runchecks.check_admit(mon, tr, st)
 
 
+def directed_auer_emp(mon, rng):
+    """strongly heteroscedastic noise per (design, objective): per-objective widths differ and it matters"""
+    K = int(rng.integers(3, 7))
+    m = int(rng.choice([2, 3]))
+    case, order = runs.make_case(rng, "Auer-emp", K=K, m=m, scale=10.0, ds_family=str(rng.choice(["random", "chain"])), eps=1.0,
+                                 contraction=float(rng.choice([1, 2, 4])), noise_var=1.0)
+    case["hetero"] = (10 ** rng.uniform(-0.7, 1.0, size=(K, m))).tolist()
+    case["max_rounds"] = 80
+    tr = runs.run_case(case, order, mon, max_extra_steps=0)
+    mon.count("runs")
+    for st in tr.steps:
+        if st["crash"] is None:
+            runchecks.check_admit(mon, tr, st)
+
+
 def shard(mon, tier, rng, shard_no, nshards):
     for _ in range(1 if tier == "quick" else 6):
         ad_run(mon, rng)
+    for _ in range(4 if tier == "quick" else 40):
+        directed_auer_emp(mon, rng)
     if shard_no == 0:
         directed_d9(mon)
     n = max(len(VARS), N[tier] // nshards)
